@@ -446,6 +446,12 @@ class SymInt:
             return c.token(self, "r")
         return "SymInt(%s)" % self.t
 
+    # `x.__class__(v)` on an int builds an int: keep that working for proxies
+    @property
+    def __class__(self):
+        from . import shims
+        return shims.IntShim
+
     # -- int methods ----------------------------------------------------------------
     def bit_length(self):
         me = self
